@@ -38,6 +38,10 @@ def build_cases(tier, rng):
             if mode == 'pure':
                 for tag, sg in fam.hint_section_mutations(rng, p, sig):
                     add('malformed hint: ' + tag, sg, expect=False)
+                # hint sections built from scratch (long increasing index runs x count patterns beyond every bound) behind the honest c~ and z
+                off = len(sig) - (p['omega'] + p['k'])
+                for tag, y in fam.adversarial_hint_sections(p):
+                    add('crafted hint section: ' + tag.split('; ')[1], bytes(sig[:off]) + y)
         # degenerate-key forgeries: accept side and reject side of every boundary
         rho = bytes(rng.randrange(256) for _ in range(32))
         fmsg = b'forged'
@@ -97,4 +101,4 @@ def check(tier, seed):
                 'extremal-magnitude responses; non-trivial = the FIPS 204 reference decided the case and the crate was asked the same question',
         'tie': 'translator (guards, constants) + correspondence + implementation-vs-oracle'},
         ['checks/ref/mldsa.py transcribes FIPS 204 Algorithms 3, 5, 8 (validated on the ACVP sigVer vectors by ref-selftest)',
-         'verify_internal = Algorithm 8 for all inputs is not proved; proved: acceptance implies successful strict decoding, norm below gamma1-beta and commitment-hash equality'])
+         'Lean: verify_internal = Algorithm 8 with exact arithmetic for every input (Props/C02b); the Python transcription is the independent oracle for the decisions'])
